@@ -17,6 +17,19 @@ theorem call_eq_naive (k : Kind α) (W : Nat) (evs : List (Ev α)) (st : St α) 
     (call k.sr W st evs).2.2 = (ncall k.sr W st.B evs).2.2 :=
   callKind_eq_ncall k W evs st hI
 
+/-- nothing but the pending text is carried from one call to the next: two objects (or one object at two moments) whose pending
+    text is the same answer every later history the same way - outcomes, pending text and unread stream - whatever trimmed search
+    buffer their earlier calls left behind (search windows, patterns and timeouts of earlier calls leave no trace) -/
+theorem later_calls_depend_only_on_pending_text (ops : List (Op α)) (evs : List (Ev α)) (st st' : St α)
+    (hI : Inv st) (hI' : Inv st') (hB : st.B = st'.B) :
+    (runOps st ops evs).1 = (runOps st' ops evs).1 ∧
+    (runOps st ops evs).2.1.B = (runOps st' ops evs).2.1.B ∧
+    (runOps st ops evs).2.2 = (runOps st' ops evs).2.2 := by
+  obtain ⟨a1, a2, a3, _⟩ := Ex.history_eq_naive ops evs st hI
+  obtain ⟨b1, b2, b3, _⟩ := Ex.history_eq_naive ops evs st' hI'
+  rw [a1, a2, a3, b1, b2, b3, hB]
+  exact ⟨rfl, rfl, rfl⟩
+
 /-- the straddling lemma for the exact searcher's incremental tail search -/
 theorem incremental_find_eq_full (pat B d w : List α)
     (hno : NoOcc pat B) (hw : w <:+ B ++ d)
@@ -58,5 +71,9 @@ example : (call (exactOf [(0, [1, 2, 3])]) 0 ({ B := [], S := [] } : St Nat) [.d
     = .hit 0 [5] [1, 2, 3] := by decide
 example : (runOps ({ B := [], S := [] } : St Nat) [.call (.exact [(0, [1, 2, 3])]) 2, .call (.exact [(0, [1, 2, 3])]) 0]
     [.data [5, 1], .data [2, 3], .timeoutExc]).1 = [.timeout [5, 1, 2, 3], .hit 0 [5] [1, 2, 3]] := by decide
+
+/-- non-vacuity: two states with the same pending text and different search buffers, both satisfying `Inv` -/
+example : Ex.Inv ({ B := [1, 2, 3], S := [3] } : St Nat) ∧ Ex.Inv ({ B := [1, 2, 3], S := [1, 2, 3] } : St Nat) :=
+  ⟨⟨[1, 2], rfl⟩, ⟨[], rfl⟩⟩
 
 end C03
